@@ -9,6 +9,7 @@
 From Coq Require Import List ZArith Bool Relations.
 Import ListNotations.
 Require Import Gram.Model.Term Gram.Model.DeBruijn Gram.Model.Eval Gram.Spec.Typing Gram.Oracle.Infer Gram.Proofs.InferSound Gram.Model.ModelB Gram.Proofs.ModelBProofs.
+Require Gram.Proofs.PreservationGroups Gram.Proofs.TcCompleteAll.
 Require Gram.Proofs.TcSoundHF Gram.Proofs.TcCompleteHF.
 
 Theorem C05_whnf_sound : forall fuel G t u, whnf fuel G t = Some u -> clos_refl_trans term (red G) t u.
@@ -97,3 +98,34 @@ Theorem C05_completeness_refuted_without_normalisation : ltac:(let T := type of 
 Proof. exact TcCompleteHF.tcB_complete_hole_free_refuted. Qed.
 Check C05_completeness_refuted_without_normalisation : _ /\ _ /\ _ /\ forall f, tcB f [] [] [] TcCompleteHF.ex_div = None.
 Print Assumptions C05_completeness_refuted_without_normalisation.
+
+(* ... and for groups nested ANYWHERE with at most one definition each (`sg`; Proofs/TcCompleteAll.v), with the reported type
+   definitionally equal to the verified checker's. The two checkers are incomparable only through non-termination on
+   types without a weak-head normal form, never through a wrong verdict (C05_checkers_incomparable: one program on which
+   the model never answers, one on which the verified checker never answers, each proved for every fuel). *)
+Theorem C05_no_false_rejection_nested_groups : forall f t T,
+  hole_free t = true -> PreservationGroups.sg t = true -> infer f [] t = Some T ->
+  forall f' r, tcB f' [] [] [] t = Some r ->
+  b_errs r = [] /\ exists T', TcSoundHF.zk (b_st r) (b_ty r) T' /\ TcCompleteHF.hr [] T T' /\ conv [] T' T.
+Proof. exact TcCompleteAll.tcB_no_false_rejection. Qed.
+Check C05_no_false_rejection_nested_groups : forall f t T,
+  hole_free t = true -> PreservationGroups.sg t = true -> infer f [] t = Some T ->
+  forall f' r, tcB f' [] [] [] t = Some r ->
+  b_errs r = [] /\ exists T', TcSoundHF.zk (b_st r) (b_ty r) T' /\ TcCompleteHF.hr [] T T' /\ conv [] T' T.
+Print Assumptions C05_no_false_rejection_nested_groups.
+
+Theorem C05_complete_nested_groups : forall f t T,
+  hole_free t = true -> PreservationGroups.sg t = true -> TcCompleteHF.inferT f [] t = Some T ->
+  exists f0 r, (forall f', f0 <= f' -> tcB f' [] [] [] t = Some r) /\ b_errs r = [] /\
+    exists T', TcSoundHF.zk (b_st r) (b_ty r) T' /\ TcCompleteHF.hr [] T T' /\ conv [] T' T.
+Proof. exact TcCompleteAll.tcB_complete_hole_free. Qed.
+Check C05_complete_nested_groups : forall f t T,
+  hole_free t = true -> PreservationGroups.sg t = true -> TcCompleteHF.inferT f [] t = Some T ->
+  exists f0 r, (forall f', f0 <= f' -> tcB f' [] [] [] t = Some r) /\ b_errs r = [] /\
+    exists T', TcSoundHF.zk (b_st r) (b_ty r) T' /\ TcCompleteHF.hr [] T T' /\ conv [] T' T.
+Print Assumptions C05_complete_nested_groups.
+
+Theorem C05_checkers_incomparable : ltac:(let T := type of TcCompleteAll.checkers_incomparable in exact T).
+Proof. exact TcCompleteAll.checkers_incomparable. Qed.
+Check C05_checkers_incomparable : (_ /\ _ /\ _ /\ forall f, tcB f [] [] [] TcCompleteHF.ex_div = None) /\ (_ /\ _ /\ _ /\ forall f, infer f [] TcCompleteAll.ex_shortcut = None).
+Print Assumptions C05_checkers_incomparable.
